@@ -900,9 +900,10 @@ def missing_headers(path: str) -> Tuple[List[str], List[str], List[str]]:
                 continue
             h = PREDEFINED_FORMATS[fmt]
             if v.number != h.number or (
-                # "Float" instead of "Integer" is ok
+                # "Float" instead of "Integer" is ok, but not for PS: phase set ids written as
+                # floating point numbers lose digits (1234501 becomes 1.2345e+06)
                 v.type != h.typ
-                and not (v.type == "Float" and h.typ == "Integer")
+                and not (v.type == "Float" and h.typ == "Integer" and fmt != "PS")
             ):
                 if fmt == "PS" and v.type != h.typ:
                     raise VcfError(
